@@ -151,6 +151,9 @@ def cases(tier, rng):
                 ops += ["send @%s;746f2d%02x" % (c, ord(c))] + ["wire " + x for x in allc]
             out.append("n%d sock ROUTER / %s" % (k, " / ".join(ops)))
             k += 1
+    # routing over connections that answer every write from a script (compared with Model/DirSend.v)
+    from . import scripted
+    out += scripted.router_cases(tier, rng, k)
     return out
 
 
@@ -158,13 +161,28 @@ def compare_filter(line):
     return not line.startswith(("j", "n", "b", "a"))      # the model assumes distinct identities and writers that accept everything
 
 
+def model_cases(case_lines):
+    from . import scripted
+    return [scripted.router_model(l) if l.startswith("k") else l for l in case_lines]
+
+
 def norm_impl(o, line):
+    if line.startswith("k"):
+        from . import scripted
+        return scripted.norm(o)
     return S.canon_impl(o, line)
+
+
+def norm_model(o, line):
+    return o if line.startswith("k") else S.canon_impl(o, line)
 
 
 def judge(line, obs, orc):
     if S.bad_obs(obs):
         return "implementation " + str(obs)[:80]
+    if line.startswith("k"):
+        from . import scripted
+        return scripted.router_judge(line, obs)
     t, po = S.pair_ops_obs(line, obs)
     if line.startswith("a"):
         snd = [tk for op, tk in po if op[0] == "send"][0]
@@ -337,4 +355,3 @@ def classify(line, what):
     return "c09-label" if "label" in what else "c09-route"
 
 
-norm_model = norm_impl
